@@ -22,7 +22,8 @@ RULE = ("ConcurrentTestSuite and ConcurrentStreamTestSuite are run with 1..4 gen
         "once in its own thread, all finished when run() returns, every emitted event delivered exactly once in the "
         "worker's order (route code + timestamp for streams, contiguous blocks for the classic suite), broken runners "
         "reported, on abort the exception propagates and started workers read shouldStop == True afterwards, no "
-        "deadlock. Non-trivial: >= 2 context switches between workers, or a fault; distinct = distinct spec.")
+        "deadlock. Also: sub-suites that compare equal or are unhashable, shared and absent route codes with events carrying their own route code, tags / times / runnable of delivered events, an interrupt in the calling thread while it waits for its workers, a second run of either suite, pre-emptions continuing after the explicit schedule. "
+        "Non-trivial: >= 2 context switches between workers, or a fault; distinct = distinct spec.")
 ASSUMPTIONS = [
     "instrumentation by rebinding testtools.testsuite.threading / Queue (vacuity guard: exit 2 if no fake thread was created)",
     "for ConcurrentTestSuite a fault in the caller's result strikes inside a worker thread: termination "
